@@ -278,5 +278,5 @@ OBLIGATIONS = [
     ('C07.S', 'state inventory', 'every field of the structs this property\'s rules read (tables/state.json) is known, and is written only by its reviewed writers (or helpers only they call): a new field is new state across calls -- a cache, a flag, a stored deadline -- that nothing has shown to stay in step; a new writer is a second place that resets, re-arms or moves something; see rules/inventory.py', inventory.state_rule_for('C07')),
     ('C07.K', 'call inventory', 'every reviewed call of a function that writes state (tables/call_edges.json, callers in the structs this property\'s rules read) is still made, directly or through helpers: a call deleted as redundant is reported; likewise the arguments of logging / debug-only macros change no state, no unreviewed call of a state-writing function appears (tables/call_edges_all.json), the types of the locals a loop carries from one iteration to the next (tables/carried.json) and, per function and field, how reads and writes of the field are ordered (tables/orders.json: a snapshot taken before instead of after an update) are as reviewed; see rules/inventory.py', inventory.call_rule_for('C07')),
     ('C07.A', 'expression inventory', 'every arithmetic expression handed to a call or stored in a field, and what every closure given to an iterator adaptor / collection method returns, is one of the reviewed expressions of its function (tables/expressions.json; linear / guard normal forms, no local names): a changed literal, operator, operand order, factor, predicate or sort key is reported; see rules/inventory.py', inventory.expr_rule_for('C07')),
-    ('C07.Z', 'constants and type shapes', 'every named constant keeps its reviewed value and every type its reviewed shape -- variants and fields in order, with their types (tables/shapes.json): a ring size, sentinel, default or wire constant changed by value, a frame or checksum stored in a narrower type, a variant or field added, removed or reordered is reported; see rules/inventory.py', inventory.shape_rule),
+    ('C07.Z', inventory.CONST_TITLE, inventory.CONST_TEXT, inventory.const_rule_for('C07')),
 ]
